@@ -5,7 +5,8 @@ use crate::CaseResult;
 use rsdd::builder::bdd::RobddBuilder;
 use rsdd::builder::cache::{AllIteTable, IteTable, LruIteTable};
 use rsdd::builder::BottomUpBuilder;
-use rsdd::repr::{BddPtr, DDNNFPtr, VarLabel, VarOrder};
+use rsdd::constants::primes;
+use rsdd::repr::{create_semantic_hash_map, BddPtr, DDNNFPtr, VarLabel, VarOrder};
 use serde_json::{json, Value};
 
 fn eval(p: BddPtr, a: &[bool]) -> bool {
@@ -125,6 +126,13 @@ fn run_with<'a, T: IteTable<'a, BddPtr<'a>> + Default>(b: &'a RobddBuilder<'a, T
                 let r = b.compose(x, VarLabel::new(l as u64), y);
                 (r, (0..nm).map(|m| { let (t, f) = (m | (1 << l), m & !(1 << l)); (ty[t] && tx[t]) || (!ty[f] && tx[f]) }).collect())
             }
+            "semhash" => {
+                // a query: fills the per-node semantic-hash cache; must not disturb anything (the diagram is pushed again)
+                let (x, tx) = get(ix(&op[1]))?;
+                let map = create_semantic_hash_map::<{ primes::U32_SMALL }>(nv);
+                let _ = x.cached_semantic_hash(b.order(), &map);
+                (x, tx)
+            }
             "smooth" => {
                 let (x, tx) = get(ix(&op[1]))?;
                 let n = ix(&op[2]);
@@ -240,6 +248,9 @@ pub fn candidates(function: &str, seed: u64) -> Vec<Value> {
                             q.push(json!(["neg", k]));
                             q.push(json!(["cond", k + 4, l, true]));
                             q.push(json!(["compose", k, l, (i + 1) % base]));
+                            q.push(json!(["semhash", k]));
+                            q.push(json!([opn, i, j]));
+                            q.push(json!(["var", l, true]));
                             out.push(json!({"case": "bdd_prog", "order": order, "cache": cache, "ops": q, "shape": shape}));
                         }
                     }
@@ -267,7 +278,7 @@ pub fn candidates(function: &str, seed: u64) -> Vec<Value> {
                 7 => json!(["cond", rng.next(n), rng.next(3), rng.next(2) == 0]),
                 8 => json!(["exists", rng.next(n), rng.next(3)]),
                 9 => json!(["compose", rng.next(n), rng.next(3), rng.next(n)]),
-                10 => json!(["var", rng.next(3), rng.next(2) == 0]),
+                10 => if rng.next(3) == 0 { json!(["semhash", rng.next(n)]) } else { json!(["var", rng.next(3), rng.next(2) == 0]) },
                 _ => json!(["smooth", rng.next(n), rng.next(4)]),
             };
             ops.push(op);
